@@ -20,6 +20,8 @@ impl Renamer {
         source_name: &[u8],
         match_suffix: bool,
     ) -> Result<Option<Vec<u8>>, Error> {
+        #[cfg(feature = "verif_hooks")]
+        crate::verif_hooks::step("replace_raw");
         let (name_len, source_name_len, target_name_len) =
             (name.len(), source_name.len(), target_name.len());
         if name_len < source_name_len || (match_suffix == false && name_len != source_name_len) {
